@@ -24,8 +24,9 @@ from concurrent.futures import ThreadPoolExecutor
 from . import common
 from . import c01_corpus as corpus
 from . import c01_lib
+from . import c01_obj
 
-LEAN_TARGETS = ["TsrunVerif.Props.C01", "TsrunVerif.Props.C01Parse", "TsrunVerif.Props.C01Lib"]
+LEAN_TARGETS = ["TsrunVerif.Props.C01", "TsrunVerif.Props.C01Parse", "TsrunVerif.Props.C01Lib", "TsrunVerif.Props.C01Obj"]
 THEOREMS = ["TsrunVerif.Ops." + t for t in [
     "numEq_symm", "strictEq_symm", "looseEq_symm", "looseEq_of_strictEq", "nan_never_equal", "null_looseEq_iff", "typeOf_closed",
     "plus_string_left", "plus_string_right", "add_comm", "neg_neg", "lt_irrefl", "nan_relational_false", "not_not",
@@ -39,8 +40,13 @@ THEOREMS = ["TsrunVerif.Ops." + t for t in [
     ["TsrunVerif.Lib." + t for t in [
         "relIndex_le", "relIndex_neg", "relIndex_nonneg", "slice_contiguous", "slice_length", "slice_all", "slice_last", "slice_empty_of_end_le_start", "slice_far",
         "at_nonneg", "at_neg", "splice_partition", "splice_lengths", "splice_start_only", "splice_insert", "fill_length", "fill_get", "copyWithin_length",
-        "with_isSome_iff", "with_length", "findFrom_spec", "indexOf_first", "indexOf_from_beyond", "substring_swap", "substring_neg", "padStart_length", "repeat_spec"]]
+        "with_isSome_iff", "with_length", "findFrom_spec", "indexOf_first", "indexOf_from_beyond", "substring_swap", "substring_neg", "padStart_length", "repeat_spec"]] + \
+    ["TsrunVerif.Obj." + t for t in [
+        "lookup_append_miss", "lookup_nearest", "lookup_none_iff", "forIn_mem_iff", "forInKeys_mem_iff", "forInKeys_has", "forIn_nodup", "forInKeys_own_first",
+        "resolveCall_spec", "resolveNew_spec", "new_call_agree", "bind_compose", "bound_this_fixed"]]
 ASSUMPTIONS = [
+    "M-Obj: an ordinary object is its list of own data properties (key, value, enumerable) in own-key order with distinct non-index string keys, a receiver is its prototype chain; accessors, index keys, symbols, "
+    "proxies in the chain and exotic objects are outside it. Bound functions are bind layers over a target; the number of layers and of arguments is unbounded in the theorems",
     "M-Lib composes ToIntegerOrInfinity, the relative index and the clamp exactly as ECMA-262 does for slice, splice/toSpliced, at, with, fill, copyWithin, indexOf/includes, lastIndexOf, substring, substr, String slice, charAt, "
     "padStart/padEnd and repeat over lists of integers / ASCII texts; arguments are abstracted to absent, NaN, +-Infinity, integers and non-integral numbers (k + 0.5); it agrees with the reference engine on all 92740 enumerated calls; "
     "callbacks, holes, species, array-likes and non-ASCII strings are outside it (covered by the reference-engine differential)",
@@ -577,6 +583,35 @@ def part_grammar(ctx, ref):
                      % (len(cases), len(bad), json.dumps(hist, sort_keys=True), len(forms)))
 
 
+def part_obj_model(ctx, ref):
+    """CORR / PROP: M-Obj (prototype-chain lookup, for-in, bound functions) == tsrun == reference engine"""
+    cs = c01_obj.cases(ctx.rng, ctx.tier)
+    model = common.driver(["obj"], [m for m, _ in cs])
+    exprs = [js for _, js in cs]
+    got = eval_exprs(run_tsrun, exprs, size=50)
+    refv = eval_exprs(lambda ps: run_node(ref.node, ps), exprs, size=50) if ref.node else [None] * len(exprs)
+
+    def plain(v):
+        if v is not None and v.startswith("s:"):
+            try:
+                return json.loads(v[2:])
+            except ValueError:
+                return v
+        return v
+    for (m, js), mo, g, r in zip(cs, model, got, refv):
+        ctx.cov["evaluations"] += 1
+        ctx.cov["traces_validated_against_impl"] += 1
+        if mo == "bad-case":
+            ctx.corr_fail("M-Obj driver rejected a generated case", m, mo, g)
+        elif r is not None and plain(r) != mo:
+            ctx.corr_fail("M-Obj differs from the reference engine (the model is wrong)", {"case": m, "expr": js[:600]}, mo, plain(r))
+        elif plain(g) != mo:
+            ctx.prop_fail("objects: tsrun differs from M-Obj (and the reference engine) on %s" % ("prototype-chain lookup / for-in" if m.startswith("chain") else "bound functions"),
+                          {"expr": js[:3000], "tsrun": plain(g), "ref": mo, "model_case": m})
+    ctx.cov["distinct_nontrivial"] += len(set(model))
+    ctx.notes.append("obj model: %d cases (prototype chains up to 9 objects with enumerable / non-enumerable shadowing, bind chains up to 5 layers)" % len(cs))
+
+
 def part_lib_model(ctx, ref):
     """CORR / PROP: M-Lib (index arithmetic of the array and string built-ins) == tsrun == reference engine,
     enumerated over every list up to length 4-5 and the boundary argument set"""
@@ -627,6 +662,7 @@ def run(ctx):
     part_ctl(ctx, ref)
     part_grammar(ctx, ref)
     part_lib_model(ctx, ref)
+    part_obj_model(ctx, ref)
     part_operators(ctx, ref)
     part_library(ctx, ref)
     part_forms(ctx, ref)
